@@ -1,5 +1,6 @@
 import RV.C03.Codec
 import RV.C03.Struct
+import RV.C03.Choice
 import RV.C03.NTLine
 import RV.C03.RefSplit
 /-
